@@ -23,7 +23,7 @@ var earlyRe = regexp.MustCompile(`too early by (-?\d+)ms|(-?\d+)ms too early`)
 func parseEarly(body []byte) int64 {
 	m := earlyRe.FindSubmatch(body)
 	if m == nil {
-		return -1
+		return -1 << 62 // absent
 	}
 	s := string(m[1])
 	if s == "" {
@@ -38,8 +38,11 @@ func parseEarly(body []byte) int64 {
 
 // earlyPair logs the "too early by X ms" figure as a pair over loopMS (X may exceed 32 bits); [-1,0] = absent.
 func earlyPair(x, loopMS int64) []int64 {
+	if x == -1<<62 {
+		return []int64{-1, 0} // no figure in the body
+	}
 	if x < 0 {
-		return []int64{-1, 0}
+		return []int64{-2, 0} // a negative figure
 	}
 	p := project.Pair(x, loopMS)
 	return p[:]
